@@ -67,6 +67,9 @@ def gen_plan(rng, tier, index):
             fops.append({'op': 'mutate', 't': rng.randrange(1000), 'seed': rng.randrange(10 ** 6)})
         elif rng.chance(0.12):
             fops.append({'op': 'gc'})
+        elif rng.chance(0.15):
+            fops.append({'op': 'edit_resave', 't': rng.randrange(1000), 'p': rng.randrange(1000), 'seed': rng.randrange(10 ** 5),
+                         'ft': rng.pick(['hdf5', 'hdf5', 'pkl'])})
         else:
             fops.append({'op': 'load', 'p': rng.randrange(1000), 'via': rng.pick(['path', 'handle', 'path'])})
     plan['ops'] = fops
@@ -447,6 +450,15 @@ def execute(plan, ctx):
                 _do_save(ctx, pool, fs, files, objs, kind, o)
             elif o['op'] == 'mutate':
                 _do_mutate(ctx, pool, objs, kind, o)
+            elif o['op'] == 'edit_resave':
+                # save, edit labels of the same object in place, save again to another file: each file holds the object as
+                # it was when that file was written
+                so = {'op': 'save', 't': o['t'], 'target': 'path', 'ft': o['ft'], 'fd': False, 'ext': 'match', 'overwrite': False,
+                      'fault': None, 'crash': False, 'p': o['p']}
+                _do_save(ctx, pool, fs, files, objs, kind, so)
+                _do_mutate(ctx, pool, objs, kind, {'t': o['t'], 'seed': 3 * o['seed']})
+                _do_save(ctx, pool, fs, files, objs, kind, so)
+                ctx.probe('edit_resave')
             elif o['op'] == 'gc':
                 import gc
                 ctx.tick('gc')
@@ -521,7 +533,21 @@ def _do_mutate(ctx, pool, objs, kind, o):
     obj = slot.obj
     r = random.Random(o['seed'])
     try:
-        if kind == 'rdms':
+        if o['seed'] % 3 == 0 and kind in ('rdms', 'data'):
+            # the user edits labels in place (same descriptor containers, other contents): a later save holds the new ones
+            dd = obj.pattern_descriptors if kind == 'rdms' else obj.obs_descriptors
+            for key in sorted(dd):
+                v = dd[key]
+                if key in ('uid', 'ouid', 'cuid', 'index') or len(v) == 0:
+                    continue
+                if isinstance(v, np.ndarray) and v.dtype.kind == 'U':
+                    v[r.randrange(len(v))] = 'zq'[:max(1, v.dtype.itemsize // 4)]
+                elif isinstance(v, list) and all(isinstance(x, str) for x in v):
+                    v[r.randrange(len(v))] = 'zq9'
+                elif isinstance(v, np.ndarray) and v.dtype.kind in 'if' and v.ndim == 1:
+                    v[r.randrange(len(v))] = 77
+            ctx.probe('labels_edited_in_place')
+        elif kind == 'rdms':
             perm = list(range(obj.n_cond))
             r.shuffle(perm)
             obj.reorder(perm)
